@@ -182,32 +182,11 @@ fn judge_struct(version: u16, n: usize, f1: usize, f2: usize, v1: usize, v2: usi
 
 pub fn spaces(tier: &str) -> Vec<Box<dyn Space>> {
     let mut v: Vec<Box<dyn Space>> = vec![];
-    // part 1: the C03 input spaces under the re-export oracle
+    // part 1: C03's input spaces under the re-export oracle
+    v.extend(super::c03::buffers(tier).into_iter().map(|g| g.into_space(judge_bytes)));
     for version in [5u16, 7] {
         let rs = rec_size(version);
-        for salt in [0usize, 91] {
-            let mut base = fixed_distinct(version, 2, salt);
-            let plen = base.len();
-            base.extend(fixed_distinct(12 - version, 1, salt + 5));
-            let b2 = base.clone();
-            v.push(space(
-                &format!("v{}-walking-byte-salt{}", version, salt),
-                ((plen - 2) * 256) as u64,
-                move |i| {
-                    let mut b = base.clone();
-                    b[2 + (i / 256) as usize] = (i % 256) as u8;
-                    judge_bytes(&b)
-                },
-                move |i| {
-                    let mut b = b2.clone();
-                    b[2 + (i / 256) as usize] = (i % 256) as u8;
-                    json!({"calls": [hex(&b)]})
-                },
-            ));
-        }
         let maxrec = (65535 - 24) / rs;
-        let top = maxrec;
-        v.push(space(&format!("v{}-materialised-counts-0..={}", version, top), top as u64 + 1, move |n| judge_bytes(&fixed_distinct(version, n as usize, 7)), move |n| json!({"records": n, "salt": 7})));
         // chained packets: every ordered pair/triple of {v5 x0,x1,x2 ; v7 x0,x1,x2}
         v.push(space(
             &format!("v{}-first-chains", version),
